@@ -7,6 +7,7 @@
 -/
 import Verif.Py
 import Verif.Proto
+import Verif.Model.C01
 
 namespace Verif.C06
 open Verif.Py
@@ -100,6 +101,10 @@ structure KView where
   /-- the calibrated pixel size as the DOUBLE the code holds (`_calibration.value`): products and quotients are
       rounded where the code rounds them, so that `int(lower / px)` can be executed as the code executes it -/
   pxF : Float := 0.0
+  /-- the kymograph's own time window `[start, stop)` (`Kymo.start`, `Kymo.stop`): what `None` bounds default to and
+      what time strings are relative to; a time slice narrows it, the other operations copy it -/
+  tStart : Int := 0
+  tStop : Int := 0
 deriving Repr
 
 def KView.numLines (v : KView) : Nat := numCols v.img
@@ -140,7 +145,45 @@ def KView.sliceTime (v : KView) (a b : Int) : KRes :=
       let lt : Rat := match kept with
         | r0 :: r1 :: _ => ((r1.1 - r0.1 : Int) : Rat)
         | _ => v.scanTimeNs
-      .view { v with img := img, lineTimeNs := lt }
+      -- the slice's own window: from the start of its first line to the start of the first line after it; when it
+      -- runs to the last line, to the requested stop — but not beyond the parent's stop and not before the end of
+      -- the last line
+      let newStart := (starts[iMin]?).getD 0
+      let newStop := if iMax < n then (starts[iMax]?).getD 0
+        else max (min b v.tStop) ((rs.getLast?.map (·.2)).getD 0)
+      .view { v with img := img, lineTimeNs := lt, tStart := newStart, tStop := newStop }
+
+/-- a bound of `kymo[a:b]` as the user writes it: `None`, an integer timestamp, or a time string -/
+inductive KBound where
+  | none
+  | ts (t : Int)
+  | str (s : String)
+deriving Repr, DecidableEq
+
+/-- what is written between the brackets: a scalar (`kymo[5]`), or a slice with or without a step -/
+inductive KItem where
+  | scalar
+  | window (a b : KBound) (step : Bool)
+deriving Repr, DecidableEq
+
+/-- `to_timestamp(value, self.start, self.stop)` with `None` replaced by the default first: a time string is parsed
+    by `Timeindex` (`C01.parseTime`; `none` = `RuntimeError("Invalid time string")`) and counted from `start`
+    (non-negative) or back from `stop` (negative) -/
+def KView.resolve (v : KView) (dflt : Int) : KBound → Option Int
+  | .none => some dflt
+  | .ts t => some t
+  | .str s => (C01.parseTime s).map fun ns => C01.resolve v.tStart v.tStop dflt (.rel ns)
+
+/-- `Kymo.__getitem__` as the user calls it: the item is validated first (scalar / step: `IndexError`, before anything
+    else), then `_check_is_sliceable`, then the bounds are resolved, then the lines are selected (`sliceTime`) -/
+def KView.getitem (v : KView) : KItem → KRes
+  | .scalar => .err .indexError
+  | .window a b step =>
+    if step then .err .indexError
+    else if v.processed then .err .notImplemented
+    else match v.resolve v.tStart a, v.resolve v.tStop b with
+      | some a', some b' => v.sliceTime a' b'
+      | _, _ => .err .runtimeError
 
 /-- `crop_by_distance(lower, upper)` (both already known to be exact rationals). -/
 def KView.crop (v : KView) (lo hi : Rat) : KRes :=
@@ -237,10 +280,12 @@ inductive KOp where
   | down (tf pf : Nat)
   | downWith (red : Red) (tf pf : Nat)
   | kbp (len : Rat)
+  | get (item : KItem)
 deriving Repr
 
 def KView.apply (v : KView) : KOp → KRes
   | .slice a b => v.sliceTime a b
+  | .get item => v.getitem item
   | .crop lo hi => v.crop lo hi
   | .flip => v.flip
   | .cropF lo hi => v.cropF lo hi
@@ -268,6 +313,10 @@ structure SView where
   delta : Int
   /-- the fast scan axis runs along image axis −2 (down the rows): `scan_order[0] > scan_order[1]` -/
   fastRows : Bool := false
+  /-- the scan's own time window (`Scan.start`, `Scan.stop`): what time strings are relative to; stamped anew by every
+      `__getitem__` (not by `crop_by_pixels`) -/
+  tStart : Int := 0
+  tStop : Int := 0
 deriving Repr
 
 inductive SRes where
@@ -339,7 +388,97 @@ def SView.slice (v : SView) (a b : Option Int) (y0 y1 x0 x1 : Option Int) : SRes
 def SView.timeToFrame (v : SView) (t : Int) (isStart : Bool) : Int :=
   if isStart then searchsortedLeft (v.ranges.map (·.1)) t else searchsortedLeft (v.ranges.map (·.2)) t
 
+/-- `_FIRST_TIMESTAMP`: integers below it are frame indices, integers from it on are timestamps -/
+def firstTimestamp : Int := 1388534400000000000
+
+/-- `frame_timestamp_ranges(include_dead_time=True)` of a view with several frames: every frame lasts one frame
+    period (start of the second frame minus start of the first) -/
+def SView.deadRanges (v : SView) : List (Int × Int) :=
+  match v.ranges.map (·.1) with
+  | s0 :: s1 :: rest => (s0 :: s1 :: rest).map fun t => (t, t + (s1 - s0))
+  | _ => v.ranges
+
+/-- what `Scan.__getitem__` does to its result before returning it: start and stop become the start of the first and the
+    stop of the last frame range (dead time included iff there is more than one frame) -/
+def SView.stamp (w : SView) : SView :=
+  let rs := if w.numFrames > 1 then w.deadRanges else w.ranges
+  { w with tStart := (rs.head?.map (·.1)).getD 0, tStop := (rs.getLast?.map (·.2)).getD 0 }
+
+def SRes.stamp : SRes → SRes
+  | .view w => .view w.stamp
+  | r => r
+
+/-- a bound of the frame slice as the user writes it: `None`, an integer (frame index or timestamp), a time string -/
+inductive SBound where
+  | none
+  | num (n : Int)
+  | str (s : String)
+deriving Repr, DecidableEq
+
+/-- `_time_to_frame_index`: `None` stays `None`; a time string is resolved against the scan's own start / stop
+    (`RuntimeError` if `Timeindex` rejects it); an integer below `_FIRST_TIMESTAMP` is a frame index already, anything
+    else is looked up in the frame starts (start bound) or frame stops (stop bound) -/
+def SView.timeToFrameB (v : SView) (isStart : Bool) : SBound → Except Err (Option Int)
+  | .none => .ok none
+  | .num n => .ok (some (if n < firstTimestamp then n else v.timeToFrame n isStart))
+  | .str s =>
+    match C01.parseTime s with
+    | none => .error .runtimeError
+    | some ns =>
+      let t := C01.resolve v.tStart v.tStop 0 (.rel ns)
+      .ok (some (if t < firstTimestamp then t else v.timeToFrame t isStart))
+
+/-- the frame item of `scan[item]` -/
+inductive SFrameItem where
+  | int (i : Int)
+  | slice (a b : SBound) (step : Bool)
+  /-- a float, a list, … -/
+  | other
+deriving Repr, DecidableEq
+
+/-- a spatial item of `scan[frames, rows, columns]` -/
+inductive SAxisItem where
+  | slice (a b : Option Int) (step : Bool)
+  | int
+  | other
+deriving Repr, DecidableEq
+
+/-- `check_item(item, slicing_frames=False)` -/
+def SAxisItem.check : SAxisItem → Except Err (Option Int × Option Int)
+  | .slice a b step => if step then .error .indexError else .ok (a, b)
+  | .int => .error .indexError
+  | .other => .error .indexError
+
+/-- `Scan.__getitem__`: the frame item is checked and converted first, then the spatial items from left to right, then
+    the frames / pixels are selected, and a non-empty result gets its start / stop stamped -/
+def SView.getitem (v : SView) (fi : SFrameItem) (sp : List SAxisItem) : SRes :=
+  let frame : Except Err (Sum Int (Option Int × Option Int)) :=
+    match fi with
+    | .int i => .ok (.inl i)
+    | .other => .error .indexError
+    | .slice a b step =>
+      if step then .error .indexError else
+      match v.timeToFrameB true a with
+      | .error e => .error e
+      | .ok a' => match v.timeToFrameB false b with
+        | .error e => .error e
+        | .ok b' => .ok (.inr (a', b'))
+  match frame with
+  | .error e => .err e
+  | .ok fr =>
+    match sp.mapM SAxisItem.check with
+    | .error e => .err e
+    | .ok axes =>
+      let (y0, y1) := axes.getD 0 (none, none)
+      let (x0, x1) := axes.getD 1 (none, none)
+      match fr with
+      | .inl i => (v.index i y0 y1 x0 x1).stamp
+      | .inr (a', b') => (v.slice a' b' y0 y1 x0 x1).stamp
+
 inductive SOp where
+  /-- `crop_by_pixels`: no `__getitem__`, start / stop are copied -/
+  | cropxy (y0 y1 x0 x1 : Option Int)
+  | get (fi : SFrameItem) (sp : List SAxisItem)
   | index (i : Int) (y0 y1 x0 x1 : Option Int)
   | slice (a b : Option Int) (y0 y1 x0 x1 : Option Int)
   /-- slice by timestamps (`none` = open) -/
@@ -347,10 +486,12 @@ inductive SOp where
 deriving Repr
 
 def SView.apply (v : SView) : SOp → SRes
-  | .index i y0 y1 x0 x1 => v.index i y0 y1 x0 x1
-  | .slice a b y0 y1 x0 x1 => v.slice a b y0 y1 x0 x1
+  | .index i y0 y1 x0 x1 => (v.index i y0 y1 x0 x1).stamp
+  | .slice a b y0 y1 x0 x1 => (v.slice a b y0 y1 x0 x1).stamp
   | .sliceT a b =>
-    v.slice (a.map fun t => v.timeToFrame t true) (b.map fun t => v.timeToFrame t false) none none none none
+    (v.slice (a.map fun t => v.timeToFrame t true) (b.map fun t => v.timeToFrame t false) none none none none).stamp
+  | .cropxy y0 y1 x0 x1 => v.slice none none y0 y1 x0 x1
+  | .get fi sp => v.getitem fi sp
 
 def runS (v : SView) : List SOp → SRes
   | [] => .view v
@@ -409,6 +550,16 @@ def showKRes : KRes → String
       -- a colour without photon data is a zero image of the same shape
       ++ " absent=" ++ toString v.img.length ++ "x" ++ toString (numCols v.img)
       ++ " pt=" ++ (match v.pixelTime with | .ok t => toString t | .error e => showErr e)
+      ++ " start=" ++ toString v.tStart ++ " stop=" ++ toString v.tStop
+
+/-- `N`, an integer, or `s` followed by the dot-separated code points of a time string -/
+def kbound? (s : String) : Option KBound :=
+  if s == "N" then some .none
+  else if s.startsWith "s" then do
+    let body := (s.drop 1).toString
+    let cps ← if body == "" then some [] else (body.splitOn ".").mapM String.toNat?
+    some (.str (String.ofList (cps.map Char.ofNat)))
+  else (s.toInt?).map .ts
 
 def kop? (s : String) : Option KOp :=
   match s.splitOn ":" with
@@ -421,9 +572,19 @@ def kop? (s : String) : Option KOp :=
     let red ← (match red with | "max" => some Red.max | "min" => some Red.min | "ptp" => some Red.ptp | _ => none)
     let tf ← tf.toNat?; let pf ← pf.toNat?; some (.downWith red tf pf)
   | ["kbp", len] => do let len ← rat? (len.replace "_" "/"); some (.kbp len)
+  | ["get", a, b] => do let a ← kbound? a; let b ← kbound? b; some (.get (.window a b false))
+  | ["getstep", a, b] => do let a ← kbound? a; let b ← kbound? b; some (.get (.window a b true))
+  | ["scalar"] => some (.get .scalar)
   | _ => none
 
 def oi? (s : String) : Option (Option Int) := optInt? s
+
+def sbound? (s : String) : Option SBound :=
+  match kbound? s with
+  | some .none => some .none
+  | some (.ts t) => some (.num t)
+  | some (.str x) => some (.str x)
+  | none => none
 
 def sop? (s : String) : Option SOp :=
   match s.splitOn ":" with
@@ -434,6 +595,23 @@ def sop? (s : String) : Option SOp :=
     let a ← oi? a; let b ← oi? b; let y0 ← oi? y0; let y1 ← oi? y1; let x0 ← oi? x0; let x1 ← oi? x1
     some (.slice a b y0 y1 x0 x1)
   | ["slicet", a, b] => do let a ← oi? a; let b ← oi? b; some (.sliceT a b)
+  | ["cropxy", y0, y1, x0, x1] => do
+    let y0 ← oi? y0; let y1 ← oi? y1; let x0 ← oi? x0; let x1 ← oi? x1
+    some (.cropxy y0 y1 x0 x1)
+  | "get" :: fi :: sp => do
+    let fi ← (match fi.splitOn "," with
+      | ["i", i] => (i.toInt?).map SFrameItem.int
+      | ["s", a, b] => do let a ← sbound? a; let b ← sbound? b; some (.slice a b false)
+      | ["sstep", a, b] => do let a ← sbound? a; let b ← sbound? b; some (.slice a b true)
+      | ["o"] => some .other
+      | _ => none)
+    let sp ← sp.mapM fun t => (match t.splitOn "," with
+      | ["s", a, b] => do let a ← oi? a; let b ← oi? b; some (SAxisItem.slice a b false)
+      | ["sstep", a, b] => do let a ← oi? a; let b ← oi? b; some (SAxisItem.slice a b true)
+      | ["i"] => some .int
+      | ["o"] => some .other
+      | _ => none)
+    some (.get fi sp)
   | _ => none
 
 def showSRes : SRes → String
@@ -445,13 +623,24 @@ def showSRes : SRes → String
       ++ " ts=" ++ "|".intercalate (v.timestamps.map fun f => "[" ++ ";".intercalate (f.map fun r => ",".intercalate (r.map toString)) ++ "]")
       ++ " pt=" ++ (match v.pixelTime with | some t => toString t | none => "U")
       ++ " ppl=" ++ toString v.pixelsPerLine ++ " lpf=" ++ toString v.linesPerFrame
+      ++ " start=" ++ toString v.tStart ++ " stop=" ++ toString v.tStop
 
+
+/-- timing of a regularly acquired kymograph: `P` pixels of `k` samples per line, `dead` unused samples between lines,
+    sample period `dt`, first used sample at `t0`: pixel `r` of line `l` spans samples
+    `l·(P·k + dead) + r·k … + k − 1` (what the reconstruction of pylake assigns; compared with real objects by `c06.regular`) -/
+def regPix (t0 : Int) (P k dead : Nat) (dt : Int) (r l : Nat) : Pix :=
+  ⟨0, t0 + ((l * (P * k + dead) + r * k : Nat) : Int) * dt, t0 + ((l * (P * k + dead) + r * k + (k - 1) : Nat) : Int) * dt⟩
+
+def regularImg (t0 : Int) (P L k dead : Nat) (dt : Int) : Img :=
+  (List.range P).map fun r => (List.range L).map fun l => regPix t0 P k dead dt r l
 
 /-- ops:
-  `c06.kymo <img rows of v:tmin:tmax> <delta> <px p/q> <unit> <pxum p/q|N> <linetime p/q> <scantime p/q> <pixeltime ns> op…`
-  `c06.scan <frames: rows of v:tmin:tmax pixels, frames separated by |> <delta> <fastRows 0|1> op…` -/
+  `c06.regular <t0> <P> <L> <k> <dead> <dt>`   line ranges and per-pixel timestamps of the regular kymograph
+  `c06.kymo <img rows of v:tmin:tmax> <delta> <px p/q> <unit> <pxum p/q|N> <linetime p/q> <scantime p/q> <pixeltime ns> <start> <stop> op…`
+  `c06.scan <frames: rows of v:tmin:tmax pixels, frames separated by |> <delta> <fastRows 0|1> <start> <stop> op…` -/
 def handle : List String → Option String
-  | "c06.kymo" :: img :: delta :: px :: unit :: pxum :: lt :: st :: pt :: ops => do
+  | "c06.kymo" :: img :: delta :: px :: unit :: pxum :: lt :: st :: pt :: t0 :: t1 :: ops => do
     let img ← listListOf? pix? img
     let delta ← int? delta
     let px ← rat? px; let unit ← nat? unit
@@ -459,14 +648,21 @@ def handle : List String → Option String
     let lt ← rat? lt; let st ← rat? st
     let ops ← ops.mapM kop?
     let pt ← int? pt
-    let v : KView := ⟨img, true, delta, px, unit, pxum, lt, st, false, 0, pt, ratToFloat px⟩
+    let t0 ← int? t0; let t1 ← int? t1
+    let v : KView := ⟨img, true, delta, px, unit, pxum, lt, st, false, 0, pt, ratToFloat px, t0, t1⟩
     some (showKRes (runK v ops))
-  | "c06.scan" :: frames :: delta :: fastRows :: ops => do
+  | ["c06.regular", t0, P, L, k, dead, dt] => do
+    let t0 ← int? t0; let P ← nat? P; let L ← nat? L; let k ← nat? k; let dead ← nat? dead; let dt ← int? dt
+    let img := regularImg t0 P L k dead dt
+    some ("ranges=" ++ showRanges (lineRanges img dt) ++ " ts=" ++
+      showListList showInt (img.map fun r => r.map Pix.tmean))
+  | "c06.scan" :: frames :: delta :: fastRows :: t0 :: t1 :: ops => do
     let frames ← (frames.splitOn "|").mapM (listListOf? pix?)
     let delta ← int? delta
     let fastRows ← nat? fastRows
     let ops ← ops.mapM sop?
-    some (showSRes (runS ⟨frames, delta, fastRows == 1⟩ ops))
+    let t0 ← int? t0; let t1 ← int? t1
+    some (showSRes (runS ⟨frames, delta, fastRows == 1, t0, t1⟩ ops))
   | _ => none
 
 end Verif.C06
